@@ -372,3 +372,27 @@ pub fn ascii_sweep(templates: &[&str]) -> Vec<Vec<u8>> {
 	out.dedup();
 	out
 }
+
+/// Schemes that software commonly treats specially (this crate: `data` under its feature) and
+/// their neighbours - one character more, a `+` / `-` / `.` / digit suffix, one character less (a
+/// shortcut keyed on a literal prefix must also look at what follows it) - through a set of shapes.
+pub fn well_known_scheme_texts() -> Vec<Vec<u8>> {
+	let mut schemes: Vec<String> = Vec::new();
+	for sch in ["data", "DATA", "Data", "http", "https", "file", "ftp", "urn", "mailto", "tag", "ws", "wss", "about", "blob", "javascript"] {
+		schemes.push(sch.to_string());
+		for suf in ["x", "s", "+u", "-u", ".u", "2"] {
+			schemes.push(format!("{sch}{suf}"));
+		}
+		schemes.push(sch[..sch.len() - 1].to_string());
+	}
+	let mut texts = Vec::new();
+	for sch in &schemes {
+		for tpl in [
+			"S:", "S:a", "S:,a?b", "S:,a?", "S:,a#f?x", "S://h/p?q#f", "S:/p?q", "S:?q", "S:#f", "S:a:b?q#f", "S:text/plain;base64,QQ==?x#y", "S://h?q", "S://u@h:1", "S:;base64,QQ==#f", "S:;base64,QQ==?q",
+			"S:text/plain", "S:a/./b", "S:x?a,b#c",
+		] {
+			texts.push(tpl.replace('S', sch).into_bytes());
+		}
+	}
+	texts
+}
